@@ -167,7 +167,7 @@ func TestC08ReaderSegmentation(t *testing.T) {
 			families = append(families, []int{pos})
 		}
 		for i := 0; i < 20; i++ {
-			families = append(families, rapid.SliceOfN(rapid.IntRange(1, 1+n/3), 1, 12).Draw(rt, "segs"))
+			families = append(families, rapid.SliceOfN(rapid.IntRange(0, 1+n/3), 1, 12).Draw(rt, "segs") /* 0 = an empty read */)
 		}
 		splitInside := false
 		check := func(segs []int) {
@@ -543,7 +543,7 @@ func TestC08PrimitiveSegmentation(t *testing.T) {
 				segmentations = append(segmentations, []int{k})
 			}
 			for i := 0; i < 20; i++ {
-				segmentations = append(segmentations, rapid.SliceOfN(rapid.IntRange(1, 9), 1, 60).Draw(rt, "segs"))
+				segmentations = append(segmentations, rapid.SliceOfN(rapid.IntRange(0, 9), 1, 60).Draw(rt, "segs"))
 			}
 		}
 		for _, segs := range segmentations {
